@@ -168,13 +168,12 @@ class C20(EngineACheck):
                 # parent fails first - is legitimately not part of the parent's node)
                 kids = []
                 for c in self.children_of(rec, jid):
-                    cr = rec.jobs[c]
-                    if not (cr.call_hash and 0 < cr.settled_seq < r.settled_seq):
-                        continue
-                    # a collapsed twin contributes the call hash it adopted
+                    # a collapsed twin is replaced, in its parent's child list, by the job it
+                    # collapsed into: that job's state is what the parent sees
                     adopted = rec.collapsed.get(c)
-                    h = (rec.jobs[adopted].call_hash if adopted else None) or cr.call_hash
-                    kids.append(h)
+                    cr = rec.jobs[adopted] if adopted else rec.jobs[c]
+                    if cr.call_hash and 0 < cr.settled_seq < r.settled_seq:
+                        kids.append(cr.call_hash)
                 expect = call_node_hash(r.task_hash, r.args_hash, node["value_hash"], kids)
                 out.probe("call_nodes_recomputed")
                 if expect != r.call_hash:
